@@ -904,7 +904,7 @@ _C10REUSE_RULE = ("ONE uci.Driver given 2..5 position commands in a row (start-p
                   "for some); after each command the driver's board must be the position THAT command describes (all six FEN fields "
                   "from Spec/Chess.succ_spec); shared with C10")
 reg(Prop("C06", "Search returns a legal move unless the game is over; board left untouched",
-         ["Properties/C06.v", "Properties/C06_skel.v", "Properties/C06_model.v", "Properties/C06_closed.v", "Properties/C06_model2.v", "Properties/C06_effects.v"],
+         ["Properties/C06.v", "Properties/C06_skel.v", "Properties/C06_model.v", "Properties/C06_closed.v", "Properties/C06_model2.v", "Properties/C06_bounds.v", "Properties/C06_effects.v"],
          [StreamCfg("c06", 20000, 150000, judge="judge_c06", model=False,
                     rule="40 fixed roots (in check, single reply, promotion, en passant, clocks 97..101, 2nd/3rd/4th occurrence "
                          "through histories, mate, stalemate, 16 queens) x {every hard node budget k in 0..300 (quick) / 0..2000+ "
